@@ -285,6 +285,42 @@ def rule_partition(ctx) -> None:
                 cex = (burst, L, len(out.value) if isinstance(out.value, bytes) else out.value, reads[:6])
     chk.decide(cex is None, "C10.partition", rd.qual, f"keeps reading (at most 64 bytes per request) until exactly `length` bytes have arrived, for every burst size of the link ({n} cases)",
                f"link delivers {cex[0]} bytes per read, length {cex[1]}: returned {cex[2]} bytes after requests {cex[3]}" if cex else "", "complete data or an exception", A.loc(SDP, rd.node))
+    # SDP / SDPS USB-HID: the payload is cut into ceil(len/report_size) reports, each padded to the report size
+    BP = "spsdk/sdp/protocol/bulk_protocol.py"
+    cfs, cf = ctx.own(BP, "SDPBulkProtocol", "_create_frames"), ctx.own(BP, "SDPBulkProtocol", "_create_frame")
+    cex = None
+    n = 0
+    for P in (4, 5):
+        for L in range(0, 3 * P + 2):
+            data = bytes(range(1, L + 1))
+
+            def sym(x: ast.expr, P=P):
+                if isinstance(x, ast.Call) and norm(x.func) == "self._create_frame":
+                    outer = holder2["ev"]
+                    b = A.bind_args(cf.node, x, skip_self=True) or {}
+                    env = {k: outer.ev(v) for k, v in b.items()}
+                    env.setdefault("offset", 0)
+                    inner = ordereval.Evaluator(env, opaque_return=False)
+                    o = inner.run(A.body_of(cf.node))
+                    if o.kind != "return":
+                        raise ordereval.Unsupported(x, "helper did not return")
+                    return o.value
+                return None
+            holder2: Dict[str, Any] = {}
+            ev = ordereval.Evaluator({"data": data, "report_id": 9, "report_size": P}, sym, opaque_return=False)
+            holder2["ev"] = ev
+            try:
+                out = ev.run(A.body_of(cfs.node))
+            except ordereval.Unsupported as ex:
+                raise AnalysisError(f"C10.partition: SDP _create_frames left the fragment: {ex}")
+            n += 1
+            frames = list(out.value) if out.kind == "return" and isinstance(out.value, (tuple, list)) else None
+            want = -(-L // P)
+            ok = frames is not None and len(frames) == want and all(isinstance(f, (bytes, bytearray)) and len(f) == P + 1 and f[0] == 9 for f in frames) and b"".join(bytes(f[1:]) for f in frames)[:L] == data
+            if not ok and cex is None:
+                cex = (P, L, None if frames is None else len(frames), want)
+    chk.decide(cex is None, "C10.partition", cfs.qual, f"a payload becomes exactly ceil(len/report size) HID reports, each report id + report size bytes, whose payloads concatenate to the data ({n} cases incl. empty and exact multiples)",
+               f"report size {cex[0]}, {cex[1]} bytes: {cex[2]} reports sent, the protocol defines {cex[3]}" if cex else "", "no report beyond the announced byte count", A.loc(BP, cfs.node))
     # a read error inside the loop raises SdpConnectionError
     tr = [t for t in ast.walk(rd.node) if isinstance(t, ast.Try)]
     ok = bool(tr) and all(A.always_raises(h.body) and "SdpConnectionError" in norm(h.body[-1]) for h in tr[0].handlers)
